@@ -29,6 +29,7 @@ case "$pkg" in
     sm3)               src=sm3_replay_test.go ;;
     sm4)               src=sm4_replay_test.go ;;
     sm4guard)          src=sm4_guard_test.go; pkg=sm4; dstname=zz_guard_test.go; testre='^TestVerifGuard$' ;;
+    sm4arm64glue)      src=sm4_arm64glue_test.go.tmpl; pkg=sm4; dstname=zz_arm64glue_test.go; testre='^TestVerifArm64Glue$'; extract=ensureCapacity ;;
     *) echo "run.sh: no replay test for package dir '$pkg'" >&2; exit 2 ;;
 esac
 
@@ -43,9 +44,28 @@ fi
 
 tmp="$(mktemp -d)"
 trap 'rm -rf "$tmp"' EXIT
+srcfile="$here/$src"
+if [ -n "${extract:-}" ]; then
+    # mechanical extraction of the named functions from the arm64 glue of the tree under test
+    python3 - "$repo/sm4/sm4_gcm_arm64.go" "$here/$src" "$tmp/extracted_test.go" $extract <<'PY'
+import re, sys
+src, tmpl, out = sys.argv[1:4]
+names = sys.argv[4:]
+text = open(src).read()
+body = open(tmpl).read()
+for n in names:
+    m = re.search(r'^func %s\(.*?^}\n' % re.escape(n), text, re.S | re.M)
+    if not m:
+        body += '\nfunc %sArm64(array []byte, asked int) (head, tail []byte) { panic("function %s not found in sm4_gcm_arm64.go") }\n' % (n, n)
+        continue
+    body += '\n' + m.group(0).replace('func %s(' % n, 'func %sArm64(' % n, 1)
+open(out, 'w').write(body)
+PY
+    srcfile="$tmp/extracted_test.go"
+fi
 
 cat > "$tmp/overlay.json" <<EOF
-{"Replace": {"$repo/$pkg/$dstname": "$here/$src"}}
+{"Replace": {"$repo/$pkg/$dstname": "$srcfile"}}
 EOF
 
 export GOFLAGS=-mod=mod GOPROXY=off GOSUMDB=off GOTOOLCHAIN=local
